@@ -217,8 +217,14 @@ def run(rep, tier):
         "(both tiers; the Aldor-language libraries are not rebuilt by this check)",
         "programs whose result would depend on the unspecified evaluation order of arguments (langfuns.tex:211) "
         "are outside the defined subset (Types.ordered_args) and are not generated",
-        "generator avoids three shapes that hit confirmed compiler defects (kept as keyed corpus entries): "
-        "qualified literal under top-level if+loop, short-circuit and/or at file level, return inside an operand sequence",
+        "generator avoids the shapes that hit confirmed compiler defects (kept as keyed corpus entries, "
+        "tools/MINI_TOOL.md): at file level no loop/try/list operation below an `if` and no `if` inside a loop "
+        "(qualified-literal style), no short-circuit and/or; anywhere no `return` inside an operand sequence "
+        "and no `if` inside a list bracket",
+        "the Box domains / category defaults are ONE fixed template (Print.dom_decls) whose meaning is "
+        "hand-derived from langtype.tex:1488-1528; only their uses vary",
+        "on a failing ending only stdout up to the failure and the status class are compared; the "
+        "interpreter's own stack dump on stdout is cut off (mini.run_interp)",
     )
 
 
